@@ -1,12 +1,12 @@
 SPECIFICATION MCSpec
 CONSTANTS
-  NP = 2
+  NP = 1
   K = 2
-  MaxSend = 1
-  MaxDup = 1
-  MaxRestart = 1
+  MaxSend = 2
+  MaxDup = 0
+  MaxRestart = 2
   Idem = 1
-  MaxOps = 11
+  MaxOps = 13
 CONSTRAINT Bound
 VIEW View
 INVARIANT NeverBoth
